@@ -1,14 +1,51 @@
 (** C03 — With auto_sync, data is durable before it is visible and immutable afterwards.
 
-    Kernel-checked here: the "immutable afterwards" half, for every pool and
-    schedule (the interleaving theorem of C01 restated for a visible entry), and
-    the write discipline it rests on.  The ordering half (successful flush after
-    the last write and before the publishing rename/link) is decided today by the
+    Kernel-checked here:
+    - durable before visible: with auto_sync on, for arbitrary environment
+      responses, every publishing rename or link of set / put / the temp-file
+      variants / ensure / get_or_update is preceded by an ACCEPTED fsync that came
+      after the operation's last write, copy or file creation; a failed flush is
+      never followed by a publication ([C03_durable_before_visible]);
+    - immutable afterwards: for every pool and schedule (the interleaving theorem
+      of C01 restated for a visible entry), and the write discipline it rests on.
+    WHICH descriptor is flushed is not tracked by the ordering monitor; the
     per-inode monitor on the implementation's traces (vlib/c03.py) and the trace
-    equality with the model; its theorem is stated in DESIGN.md as not done. *)
+    equality with the model pin it.  fsync's durability is the kernel's contract. *)
 From Coq Require Import List NArith ZArith String Bool.
-From Kismet Require Import FS.Fs FS.Prog Ops.Ops Spec.ClassMon Spec.Calm Conc.Pool Conc.Effect Conc.Immut Proofs.WriteDisc.
+From Kismet Require Import FS.Fs FS.Prog Ops.Ops Ops.Client Spec.Wp Spec.ClassMon Spec.Calm Conc.Pool Conc.Effect Conc.Immut Proofs.WriteDisc Proofs.SyncFirst.
 Import ListNotations.
+
+Theorem C03_durable_before_visible : forall cfg, s_autosync cfg = true ->
+  (forall k v, sy (cache_set cfg k v)) /\ (forall k v, sy (cache_put cfg k v)) /\
+  (forall b k fd p, sy (cache_write_temp b cfg k fd p)) /\
+  (forall k j pop, chko_nrl (s_checker cfg) -> judge_nrl j -> pop_nrl pop -> sy (get_or_update cfg k j pop)) /\
+  (forall k pop, chko_nrl (s_checker cfg) -> pop_nrl pop -> sy (ensure cfg k pop)).
+Proof.
+  intros cfg H. split; [intros; apply sy_cache_set, H|]. split; [intros; apply sy_cache_put, H|].
+  split; [intros; apply sy_cache_write_temp, H|]. split; [intros; apply sy_get_or_update; assumption|intros; apply sy_ensure; assumption].
+Qed.
+
+(** ... hence on every sequential run the ordering monitor accepts the trace. *)
+Theorem C03_durable_before_visible_on_every_run : forall cfg k v w o, s_autosync cfg = true ->
+  let '(_, _, _, tr) := run (cache_set cfg k v) w o in exists s', mon_run y_step false tr = Some s'.
+Proof. intros cfg k v w o H. apply (sync_first_run _ (sy_cache_set cfg H k v)). Qed.
+
+(** Non-vacuity: with auto_sync, a set whose flush fails publishes nothing (no
+    rename in its trace), and a set whose flush succeeds does rename. *)
+Example C03_example :
+  let mk (f : fs) (p : path) (c : N) :=
+    let '(f1, i) := alloc_inode f (mkInode false [c] 292 100%Z 50%Z 1 false) in
+    set_names f1 ((p, i) :: names f1) in
+  let '(f0, d) := alloc_inode empty_fs (mkInode true [] 493 0%Z 0%Z 2 true) in
+  let f0 := set_names f0 ((["w"%string], d) :: names f0) in
+  let w := mkWorld (mk f0 ["v"%string] 66%N) 0 [] in
+  let cfg := mkStack 0 (Some (FPlain ["w"%string] 300)) [] None true ["systmp"%string] in
+  let renames (flt : option (nat * errno)) :=
+    let '(_, _, _, tr) := run (cache_set cfg (mkKey "a"%string 1 2) ["v"%string]) w
+                              (mkOracle [1000; 1001]%Z [18446744073709551615%N] [] [] [] flt 0 1%Z Relatime) in
+    List.length (filter (fun ev => match ev with EvCall (CRename _ _) _ => true | _ => false end) tr) in
+  renames None = 1%nat /\ renames (Some (1%nat, EIO)) = 0%nat.
+Proof. vm_compute. split; reflexivity. Qed.
 
 (** Once visible (no read-write descriptor left on it), an entry is never
     written, truncated or replaced in place by anybody, under any schedule. *)
